@@ -384,14 +384,28 @@ func (c *Ctx) classifyLoop(fn *ssa.Function, l *natLoop) (class string, ok bool,
 	if c.lenGuardedBufferLoop(fn, l, calls) {
 		return "consuming(len-guarded)", true, ""
 	}
+	// it suffices that every cycle passes a consuming call whose failure leaves the
+	// loop; other consuming calls whose results are ignored (padding skips) do not matter
+	good := map[int]bool{}
+	why := ""
 	for _, call := range calls {
-		if ok, why := c.failureExits(fn, l, call); !ok {
-			// one consuming call with a proper exit on every cycle would suffice, but
-			// each call that can stall must exit: require it for all
-			return "consuming", false, why
+		if ok, w := c.failureExits(fn, l, call); ok {
+			good[call.Block().Index] = true
+		} else if why == "" || strings.Contains(w, "continues the loop") {
+			why = w
 		}
 	}
-	return "consuming", true, ""
+	if len(good) > 0 && bodyAlwaysPasses(fn, l, good) {
+		// but an outcome that is *tested* and continues the loop on failure is a stall
+		if strings.Contains(why, "continues the loop") {
+			return "consuming", false, why
+		}
+		return "consuming", true, ""
+	}
+	if why == "" {
+		why = "no cycle-covering consuming call whose failure leaves the loop"
+	}
+	return "consuming", false, why
 }
 
 func phiNext(phi *ssa.Phi, l *natLoop) (*ssa.BinOp, bool) {
